@@ -16,6 +16,45 @@ from sa import core
 from sa.formula import F, TRUE, FALSE, atom, implies, equivalent  # noqa: F401
 
 
+def single_assignment_aliases(fn):
+  """local name -> normalised text of its only definition (for locals that are
+  assigned exactly once by a plain `name = expr`)."""
+  counts, vals = {}, {}
+  for n in ast.walk(fn):
+    if isinstance(n, ast.Assign):
+      for t in n.targets:
+        for x in ast.walk(t):
+          if isinstance(x, ast.Name):
+            counts[x.id] = counts.get(x.id, 0) + 1
+            if isinstance(t, ast.Name):
+              vals[x.id] = n.value
+    elif isinstance(n, (ast.AugAssign, ast.AnnAssign)) and isinstance(n.target, ast.Name):
+      counts[n.target.id] = counts.get(n.target.id, 0) + 2
+    elif isinstance(n, (ast.For, ast.comprehension)):
+      for x in ast.walk(n.target):
+        if isinstance(x, ast.Name):
+          counts[x.id] = counts.get(x.id, 0) + 2
+    elif isinstance(n, ast.withitem) and n.optional_vars is not None:
+      for x in ast.walk(n.optional_vars):
+        if isinstance(x, ast.Name):
+          counts[x.id] = counts.get(x.id, 0) + 2
+  return {k: vals[k] for k, c in counts.items() if c == 1 and k in vals}
+
+
+def alias_text(e, aliases, depth=4):
+  """Normalised text of e with a leading single-assignment local replaced by
+  its definition (so `fn_scope.globals` reads `self.state[...].scope.globals`)."""
+  parts = []
+  base = e
+  while isinstance(base, ast.Attribute):
+    parts.append(base.attr)
+    base = base.value
+  if isinstance(base, ast.Name) and base.id in aliases and depth > 0 and parts:
+    inner = alias_text(aliases[base.id], aliases, depth - 1)
+    return inner + '.' + '.'.join(reversed(parts))
+  return core.norm(e)
+
+
 class SetV:
   """A set, by the membership formula of the generic element."""
 
